@@ -1,9 +1,21 @@
-"""KeyAction decorator: precondition table of every key operation, order of checks, usage scan (shared by C06, C07, C16)."""
+"""KeyAction decorator: precondition table of every key operation, order of checks, usage scan (shared by C06, C07, C16).
+
+Nothing here compares source text, local names or statement shapes:
+  * the wrapper of KeyAction.__call__ is *the function __call__ returns*; its behaviour is read off the interpreter's paths as a
+    truth table over the atoms of the decisions taken (refusals, precondition check before the action, component passed on)
+  * check_attributes: the raise is reached exactly when the compared pair (attribute of the key, declared value) differs
+  * usage(): interpreted under finite scenarios (key with two subkeys, every assignment of "has the capability" to the three
+    components, flags required or not, enforcement on or off); the decisions are answered by an oracle that recognises the
+    capability test *as a relation* (required flags intersect the component's effective flags), the outcome (what is yielded /
+    raised) is compared with the policy.  Iterator expressions, loop shapes, temporaries do not matter.
+"""
 import ast
+import itertools
+import re
 
 from .loader import AnalysisError, dotted
-from .cfg import CFG, calls_in
-from .interp import Interp, Scenario, Sym, Const, render
+from .interp import Interp, Scenario, Sym, Const, FuncV, render
+from .guards import eval_skel, atoms as skel_atoms
 
 # the policy, from the property statements (C16 / C07 / C06): operation -> (required flags, conditions)
 POLICY = {
@@ -16,20 +28,41 @@ POLICY = {
     'encrypt': ({'KeyFlags.EncryptCommunications', 'KeyFlags.EncryptStorage'}, {'is_public': True}),
 }
 
+noinline = lambda f: False  # noqa: E731
+
+
+# ------------------------------------------------------------------------------------------------ decorator table
+def _lit(node):
+    try:
+        return ast.literal_eval(node)
+    except Exception:
+        return ast.unparse(node)
+
 
 def decorator_table(prog):
+    """operation -> (flags, conditions, FunctionInfo) from the @KeyAction(...) decorators of PGPKey (any argument spelling:
+    positional / *(...) flags, keyword / **{...} conditions)."""
     ci = prog.cls('pgpy.pgp', 'PGPKey')
     out = {}
     for name, f in ci.methods.items():
         for d in f.node.decorator_list:
-            if isinstance(d, ast.Call) and dotted(d.func) == 'KeyAction':
-                flags = set(dotted(a) or ast.unparse(a) for a in d.args)
+            if isinstance(d, ast.Call) and (dotted(d.func) or '').split('.')[-1] == 'KeyAction':
+                flags = set()
+                for a in d.args:
+                    if isinstance(a, ast.Starred) and isinstance(a.value, (ast.Tuple, ast.List, ast.Set)):
+                        flags.update(dotted(e) or ast.unparse(e) for e in a.value.elts)
+                    else:
+                        flags.add(dotted(a) or ast.unparse(a))
                 conds = {}
                 for k in d.keywords:
-                    try:
-                        conds[k.arg] = ast.literal_eval(k.value)
-                    except Exception:
-                        conds[k.arg] = ast.unparse(k.value)
+                    if k.arg is None and isinstance(k.value, ast.Dict) and all(isinstance(x, ast.Constant) for x in k.value.keys):
+                        for kk, vv in zip(k.value.keys, k.value.values):
+                            conds[kk.value] = _lit(vv)
+                    elif k.arg is None and isinstance(k.value, ast.Call) and dotted(k.value.func) == 'dict' and not k.value.args:
+                        for kw in k.value.keywords:
+                            conds[kw.arg] = _lit(kw.value)
+                    else:
+                        conds[k.arg] = _lit(k.value)
                 out[name] = (flags, conds, f)
     return out
 
@@ -50,6 +83,33 @@ def check_table(rep, prog, rid):
         if op not in POLICY:
             rep.violation(rid, 'PGPKey.%s' % op, 'unreviewed KeyAction operation', 'a new key operation is not in the reviewed policy table',
                           where=tbl[op][2].where)
+    _check_init(rep, prog, rid)
+
+
+def _check_init(rep, prog, rid):
+    """The decorator arguments are what usage() / check_attributes() later read: all flags, all conditions."""
+    ka = prog.cls('pgpy.decorators', 'KeyAction')
+    init = ka.methods.get('__init__')
+    if init is None:
+        raise AnalysisError('KeyAction.__init__ vanished')
+    va, kw = init.node.args.vararg, init.node.args.kwarg
+    if va is None or kw is None:
+        raise AnalysisError('KeyAction.__init__: flags / conditions are no longer variadic arguments')
+    me = init.params[0]
+    for s in Interp(prog, Scenario(inline=noinline)).run(init):
+        for attr, src, what, expected in (('flags', '*' + va.arg, 'every capability named in the decorator is a required flag', 'all positional arguments'),
+                                          ('conditions', kw.arg, 'every condition named in the decorator is kept', 'all keyword arguments')):
+            path = '%s.%s' % (me, attr)
+            # everything that flows into the attribute: what is stored, and the arguments of calls made on it (update / add ...)
+            texts = [v for p, v, l, _ in s.stores if p == path]
+            texts += [a for c in s.calls if any(c[0].startswith(t + '.') for t in [path] + texts) for a in list(c[1]) + list(c[2].values())]
+            if not texts:
+                raise AnalysisError('KeyAction.__init__: %s is never set' % path)
+            whole = re.compile(r'(?<![\w])%s(?![\w\[])' % re.escape(src))
+            uses_all = any(whole.search(t) and 'SLICE(' + src not in t for t in texts)
+            partial = any((src + '[') in t or ('SLICE(' + src) in t for t in texts)
+            rep.check(uses_all and not partial, rid, 'KeyAction.__init__', '%s <- %s' % (attr, texts), what, where=init.where,
+                      expected=expected, found=texts)
 
 
 def check_private_ops(rep, prog, rid):
@@ -64,119 +124,581 @@ def check_private_ops(rep, prog, rid):
                   'objects holding only public material must refuse %s' % op, where=f.where, expected='is_public=False', found=gc, scenario=op)
 
 
+# ------------------------------------------------------------------------------------------------ truth tables over path facts
+def atom_key(a):
+    """(key, positive): one key per *relation* - `x == y`, `y == x`, `x != y`, `not x is y` share a key; positive tells
+    whether the atom being true means the relation holds."""
+    if a[0] == 'cmp':
+        op, l, r = a[1], a[2], a[3]
+        if op in ('==', 'is', '!=', 'is not'):
+            return ('eq', frozenset((l, r))), op in ('==', 'is')
+        if op == 'not in':
+            return ('cmp', 'in', l, r), False
+        flip = {'<': '>', '>': '<', '<=': '>=', '>=': '<='}
+        if op in ('>', '>='):               # keep one orientation
+            return ('cmp', flip[op], r, l), True
+        return ('cmp', op, l, r), True
+    if a[0] == 'call':
+        return ('call', a[1], tuple(a[2])), True
+    return (a[0], a[1]), True
+
+
+def _fact_atoms(s, alias=None):
+    out = []
+    for text, value, sk in s.facts:
+        if sk is None:
+            out.append(('opaque', text))
+        else:
+            for a in skel_atoms(sk):
+                if a[0] != 'const':
+                    out.append(_aliased(atom_key(a), alias)[0])
+    return out
+
+
+def _fact_atoms_all(states, alias=None):
+    out = []
+    for s in states:
+        for k in _fact_atoms(s, alias):
+            if k not in out:
+                out.append(k)
+    return out
+
+
+def _aliased(kp, alias):
+    """alias(key) -> (other key, same polarity?) lets a rule state that two differently built tests decide the same relation."""
+    k, pos = kp
+    m = alias(k) if alias is not None else None
+    if m is None:
+        return k, pos
+    return m[0], (pos if m[1] else not pos)
+
+
+def consistent(s, assign, alias=None):
+    """Does the path's list of decisions agree with the assignment of truth values to relations?"""
+    for text, value, sk in s.facts:
+        if sk is None:
+            if assign.get(('opaque', text), True) is not True:
+                return False
+            continue
+
+        def val(a):
+            if a[0] == 'const':
+                return a[1]
+            k, pos = _aliased(atom_key(a), alias)
+            v = assign.get(k)
+            return None if v is None else (v if pos else not v)
+        ev = eval_skel(sk, val)
+        if ev is not None and ev != value:
+            return False
+    return True
+
+
+def assignments(states, limit=12, alias=None):
+    keys = []
+    for s in states:
+        for k in _fact_atoms(s, alias):
+            if k not in keys:
+                keys.append(k)
+    if len(keys) > limit:
+        raise AnalysisError('decision table too large (%d independent conditions)' % len(keys))
+    for vals in itertools.product((True, False), repeat=len(keys)):
+        yield dict(zip(keys, vals))
+
+
+def _show(assign):
+    def one(k, v):
+        if k[0] == 'eq':
+            return '%s %s %s' % (sorted(k[1])[0], '==' if v else '!=', sorted(k[1])[-1])
+        if k[0] == 'cmp':
+            return '%s(%s %s %s)' % ('' if v else 'not ', k[2], k[1], k[3])
+        if k[0] == 'call':
+            return '%s%s(%s)' % ('' if v else 'not ', k[1], ', '.join(k[2]))
+        return '%s%s' % ('' if v else 'not ', k[1])
+    return ', '.join(one(k, v) for k, v in assign.items())
+
+
+_LEN = re.compile(r'^len\((.+)\)$')
+
+
+def skel_from_text(text):
+    """Boolean skeleton (the format of the interpreter's path facts) of a rendered condition: and / or / not / all([..]) /
+    any([..]) / `False not in (..)` / non-short-circuit & | over comparisons; anything else is an opaque atom."""
+    src = re.sub(r'\$(\d+)(?:\.(\d+))?', lambda m: 'B_%s_%s' % (m.group(1), m.group(2) or ''), text)
+    try:
+        tree = ast.parse(src, mode='eval').body
+    except SyntaxError:
+        return ('expr', text)
+
+    def un(n):
+        return re.sub(r'B_(\d+)_(\d*)', lambda m: '$%s%s' % (m.group(1), '.' + m.group(2) if m.group(2) else ''), ast.unparse(n))
+
+    def boolish(n):
+        return isinstance(n, (ast.Compare, ast.BoolOp)) or (isinstance(n, ast.UnaryOp) and isinstance(n.op, ast.Not)) or \
+            (isinstance(n, ast.BinOp) and isinstance(n.op, (ast.BitAnd, ast.BitOr)) and boolish(n.left) and boolish(n.right))
+
+    def build(n):
+        if isinstance(n, ast.BoolOp):
+            return ('and' if isinstance(n.op, ast.And) else 'or', [build(v) for v in n.values])
+        if isinstance(n, ast.UnaryOp) and isinstance(n.op, ast.Not):
+            return ('not', build(n.operand))
+        if isinstance(n, ast.BinOp) and isinstance(n.op, (ast.BitAnd, ast.BitOr)) and boolish(n.left) and boolish(n.right):
+            return ('and' if isinstance(n.op, ast.BitAnd) else 'or', [build(n.left), build(n.right)])
+        if isinstance(n, ast.Call) and dotted(n.func) in ('all', 'any') and len(n.args) == 1 and isinstance(n.args[0], (ast.List, ast.Tuple)):
+            return ('and' if dotted(n.func) == 'all' else 'or', [build(v) for v in n.args[0].elts])
+        if isinstance(n, ast.Call) and dotted(n.func) == 'bool' and len(n.args) == 1:
+            return build(n.args[0])
+        if isinstance(n, ast.Constant) and isinstance(n.value, bool):
+            return ('const', n.value)
+        if isinstance(n, ast.Compare) and len(n.ops) == 1:
+            l, r, op = n.left, n.comparators[0], n.ops[0]
+            if isinstance(op, (ast.In, ast.NotIn)) and isinstance(l, ast.Constant) and isinstance(l.value, bool) and isinstance(r, (ast.Tuple, ast.List)):
+                inner = ('or', [build(v) if l.value else ('not', build(v)) for v in r.elts])       # True in (..) / False in (..)
+                return inner if isinstance(op, ast.In) else ('not', inner)
+            ops = {ast.Eq: '==', ast.NotEq: '!=', ast.Is: 'is', ast.IsNot: 'is not', ast.In: 'in', ast.NotIn: 'not in', ast.Lt: '<', ast.LtE: '<=',
+                   ast.Gt: '>', ast.GtE: '>='}
+            return ('cmp', ops[type(op)], un(l), un(r))
+        if isinstance(n, ast.Call):
+            return ('call', un(n.func), [un(a) for a in n.args])
+        return ('expr', un(n))
+    return build(tree)
+
+
+def truthiness(key, subject):
+    """If the relation `key` is about the collection `subject` being non-empty return its polarity
+    (True: relation true <=> non-empty), else None.  Spellings: x, len(x), len(x) != 0, len(x) > 0, len(x) >= 1, len(x) == 0, len(x) < 1."""
+    ln = 'len(%s)' % subject
+    if key in (('expr', subject), ('call', 'len', (subject,)), ('call', 'bool', (subject,))):
+        return True
+    if key[0] == 'eq' and key[1] == frozenset((ln, '0')):
+        return False
+    if key[0] == 'cmp':
+        op, l, r = key[1], key[2], key[3]
+        table = {('<', '0', ln): True, ('<=', '1', ln): True, ('<', ln, '1'): False, ('<=', ln, '0'): False}
+        return table.get((op, l, r))
+    return None
+
+
+# ------------------------------------------------------------------------------------------------ __call__ / check_attributes
+def wrapper_function(prog, call, rep=None, rid=None):
+    """The function KeyAction.__call__ hands back (by value: whatever it is called, however it is decorated)."""
+    cands = []
+    for s in Interp(prog, Scenario(inline=noinline)).run(call):
+        if s.raised is not None:
+            continue
+        if rep is not None and s.ret is not None and render(s.ret) == call.params[1]:
+            rep.violation(rid, 'KeyAction.__call__', 'returns the operation itself under %s' % [f[0] for f in s.facts],
+                          'the decorator hands the operation back unguarded on some path: refusals and preconditions are skipped', where=call.where,
+                          expected='the guarding wrapper on every path', found=render(s.ret))
+            continue
+        if isinstance(s.ret, FuncV):
+            fi = s.ret.fi
+        else:
+            fs = [v.fi for v in s.env.values() if isinstance(v, FuncV) and v.fi.outer is call]
+            if len(fs) != 1:
+                raise AnalysisError('KeyAction.__call__: cannot tell which function is returned (%s)' % (render(s.ret) if s.ret is not None else None))
+            fi = fs[0]
+        if fi not in cands:
+            cands.append(fi)
+    if len(cands) != 1:
+        raise AnalysisError('KeyAction.__call__: wrapper function not found')
+    return cands[0]
+
+
 def check_call_order(rep, prog, rid):
     """KeyAction.__call__: refusals first, check_attributes before the action, action receives the selected component."""
     ka = prog.cls('pgpy.decorators', 'KeyAction')
     call = ka.methods.get('__call__')
-    if call is None:
+    if call is None or len(call.params) != 2:
         raise AnalysisError('KeyAction.__call__ vanished')
-    inner = [n for n in call.node.body if isinstance(n, ast.FunctionDef)]
-    if len(inner) != 1:
-        raise AnalysisError('KeyAction.__call__: wrapper function not found')
-    w = inner[0]
-    g = CFG(w)
+    me, act = call.params
+    w = wrapper_function(prog, call, rep, rid)
+    if not w.params or w.node.args.kwarg is None:
+        raise AnalysisError('KeyAction wrapper: no key parameter / keyword arguments')
+    kp, kw = w.params[0], w.node.args.kwarg.arg
+    where = '%s:%d' % (call.module.relpath, w.node.lineno)
+    sc = Scenario(bind={me: Sym(me, cls=ka, nonnull=True), act: Sym(act, nonnull=True)}, inline=noinline)
+    outs = Interp(prog, sc).run(w)
 
-    def has_call(node, pred):
-        return node.ast is not None and any(pred(c) for e in __import__('sa.cfg', fromlist=['own_exprs']).own_exprs(node.ast)
-                                            for c in calls_in(e))
-    act = [n for n in g.nodes if n.kind in ('stmt', 'test') and has_call(n, lambda c: isinstance(c.func, ast.Name) and c.func.id == 'action')]
-    chk = [n for n in g.nodes if n.kind in ('stmt', 'test') and has_call(n, lambda c: isinstance(c.func, ast.Attribute) and c.func.attr == 'check_attributes')]
-    if len(act) != 1:
-        raise AnalysisError('KeyAction wrapper: expected one call of the wrapped action, found %d' % len(act))
-    where = '%s:%d' % (call.module.relpath, w.lineno)
-    ok = bool(chk) and g.must_pass([c.id for c in chk], g.entry.id, act[0].id)
-    rep.check(ok, rid, 'KeyAction.__call__', 'check_attributes before action', 'the precondition check must run on every path before the operation',
-              where=where, expected='self.check_attributes(key) dominates action(...)')
-    for c in chk:
-        args = [ast.unparse(a) for cc in calls_in(c.ast) if isinstance(cc.func, ast.Attribute) and cc.func.attr == 'check_attributes' for a in cc.args]
-        rep.check(args == ['key'], rid, 'KeyAction.__call__', 'check_attributes(%s)' % args, 'the conditions are those of the key the caller addressed',
-                  where=where)
-    # refusals: no key material / no user id (except the first self-certification)
-    raises = [n for n in g.nodes if n.kind == 'stmt' and isinstance(n.ast, ast.Raise)]
-    tests = [n for n in g.nodes if n.kind == 'test']
-    t_nokey = [t for t in tests if ast.unparse(t.ast.test).replace(' ', '') == 'key._keyisNone']
-    t_nouid = [t for t in tests if 'notkey._uids' in ast.unparse(t.ast.test).replace(' ', '')]
-    for label, ts in (('no key material', t_nokey), ('no user id', t_nouid)):
-        ok = len(ts) == 1 and g.dominates(ts[0].id, act[0].id)
-        if ok:
-            tbranch = [m for m, lab in g.succ[ts[0].id] if lab == 'T']
-            ok = all(g.exit.id not in g.reachable(m) and act[0].id not in g.reachable(m) for m in tbranch)
-        rep.check(ok, rid, 'KeyAction.__call__', 'refusal: %s' % label, 'a key with %s must refuse before anything else happens' % label, where=where)
-    if t_nouid:
-        tt = ast.unparse(t_nouid[0].ast.test).replace(' ', '').replace('(', '').replace(')', '')
-        rep.check(tt == 'notkey._uidsandkey.is_primaryandactionisnotkey.certify.__wrapped__', rid, 'KeyAction.__call__',
-                  'identity-less exemption %s' % ast.unparse(t_nouid[0].ast.test),
-                  'only the first self-certification may run on a primary key without an identity', where=where)
-    # the action receives the component chosen by usage()
-    for c in calls_in(act[0].ast):
-        if isinstance(c.func, ast.Name) and c.func.id == 'action':
-            rep.check(bool(c.args) and ast.unparse(c.args[0]) == '_key', rid, 'KeyAction.__call__', 'action(%s, ...)' % (ast.unparse(c.args[0]) if c.args else None),
-                      'the operation must run on the component that usage() selected', where=where)
-    withs = [n for n in ast.walk(w) if isinstance(n, ast.With)]
-    ok = any(ast.unparse(i.context_expr).replace(' ', '') == "self.usage(key,kwargs.get('user'))" and
-             i.optional_vars is not None and ast.unparse(i.optional_vars) == '_key' for n in withs for i in n.items)
-    rep.check(ok, rid, 'KeyAction.__call__', 'with self.usage(key, user) as _key', 'the component is selected by the usage scan for the addressed key',
-              where=where)
-    # check_attributes: loops over all conditions, raises on mismatch
+    def ev_calls(s, pred):
+        return [(i, e) for i, e in enumerate(s.events) if e[0] == 'call' and pred(e)]
+
+    def action_calls(s):
+        return ev_calls(s, lambda e: e[1] == act)
+
+    reaching = [s for s in outs if action_calls(s)]
+    if not reaching:
+        raise AnalysisError('KeyAction wrapper: the wrapped operation is never called')
+    # (1) the precondition check runs, for the addressed key, before the operation on every path that performs it
+    users = ("%s.get('user')" % kw, "(%s['user'] if ('user' in %s) else None)" % (kw, kw))
+    selected = ['%s.usage(%s, %s)' % (me, kp, u_) for u_ in users]
+    usage_text = 'with(%s)' % selected[0]
+
+    def is_selected(a0):
+        """the context manager's value: `with U as x` or `stack.enter_context(U)`, U = self.usage(<addressed key>, <caller's identity>)"""
+        if a0 is None:
+            return False
+        return any(a0 == 'with(%s)' % u_ or (a0.endswith('.enter_context(%s)' % u_) and a0.startswith('with(')) for u_ in selected)
+    for s in reaching:
+        ac = action_calls(s)
+        first = ac[0][0]
+        chk = ev_calls(s, lambda e: e[1] == '%s.check_attributes' % me)
+        before = [e for i, e in chk if i < first]
+        rep.check(bool(before), rid, 'KeyAction.__call__', 'check_attributes before action', 'the precondition check must run on every path before the operation',
+                  where=where, expected='%s.check_attributes(%s) precedes %s(...)' % (me, kp, act), found=[e[1] for e in s.events if e[0] == 'call'])
+        for e in before:
+            rep.check(e[2] == [kp] and not e[3], rid, 'KeyAction.__call__', 'check_attributes(%s)' % e[2], 'the conditions are those of the key the caller addressed',
+                      where=where, expected=[kp], found=e[2])
+        # (3) the operation runs once, on the component usage() selected for the addressed key and the caller's identity
+        rep.check(len(ac) == 1, rid, 'KeyAction.__call__', '%d calls of the operation' % len(ac), 'the operation is carried out exactly once', where=where)
+        for i, e in ac:
+            a0 = e[2][0] if e[2] else None
+            m_ = re.match(r'^(?:with\(|.*\.enter_context\()%s\.usage\((.*)\)\)$' % re.escape(me), a0 or '')
+            if not is_selected(a0) and m_ is not None:
+                uargs = _top_args(m_.group(1))
+                if len(uargs) == 2 and uargs[0] == kp and re.search(r'(?<![\w.])%s\b' % re.escape(kw), uargs[1]):
+                    # the addressed key and SOME reading of the caller's `user` keyword, in a spelling the rule does not know
+                    raise AnalysisError('KeyAction wrapper: identity handed to usage() not understood: %s' % uargs[1])
+            rep.check(is_selected(a0), rid, 'KeyAction.__call__', 'action(%s, ...)' % a0,
+                      'the operation must run on the component that usage() selected for the addressed key and the chosen identity', where=where,
+                      expected=usage_text, found=a0)
+    # (2) refusals: no key material / no user id (except the first self-certification) - as a truth table over the decisions
+    nokey_k = ('eq', frozenset(('%s._key' % kp, 'None')))
+    cert_k = ('eq', frozenset((act, '%s.certify.__wrapped__' % kp)))
+    prim_k = ('expr', '%s.is_primary' % kp)
+    seen = {'nokey': False, 'uids': False, 'primary': False, 'certify': False}
+    bad = {}
+    n = 0
+    for assign in assignments(outs):
+        has_uids = None
+        for k, v in assign.items():
+            pol = truthiness(k, '%s._uids' % kp)
+            if pol is not None:
+                seen['uids'] = True
+                hv = v if pol else not v
+                if has_uids is not None and has_uids != hv:
+                    has_uids = 'contradiction'
+                    break
+                has_uids = hv
+        if has_uids == 'contradiction':
+            continue
+        nokey = assign.get(nokey_k)
+        primary = assign.get(prim_k)
+        certify = assign.get(cert_k)
+        seen['nokey'] |= nokey is not None
+        seen['primary'] |= primary is not None
+        seen['certify'] |= certify is not None
+        # a relation that is not decided anywhere in the wrapper counts as "not tested": the refusal cannot depend on it
+        refuse = bool(nokey) or (has_uids is False and bool(primary) and certify is False)
+        paths = [s for s in outs if consistent(s, assign)]
+        if not paths:
+            continue
+        n += 1
+        for s in paths:
+            acts = bool(action_calls(s))
+            if refuse and (acts or s.raised is None):
+                bad.setdefault('refuse', (assign, s))
+            if not refuse and (not acts or s.raised is not None):
+                bad.setdefault('perform', (assign, s))
+    for label, k in (('no key material', 'nokey'), ('no user id', 'uids')):
+        ok = seen[k] and 'refuse' not in bad
+        rep.check(ok, rid, 'KeyAction.__call__', 'refusal: %s' % label, 'a key with %s must refuse before anything else happens' % label, where=where,
+                  found=None if ok else ('not tested' if not seen[k] else 'under [%s] the operation is %s' % (
+                      _show(bad['refuse'][0]), 'carried out' if action_calls(bad['refuse'][1]) else 'skipped without an error')))
+    ok = seen['primary'] and seen['certify'] and not bad
+    rep.check(ok, rid, 'KeyAction.__call__', 'identity-less exemption',
+              'only the first self-certification may run on a primary key without an identity', where=where,
+              expected='refuse iff no key material, or no identity on a primary key unless the operation is its own certify',
+              found=None if ok else '; '.join('%s: [%s]' % (k, _show(v[0])) for k, v in sorted(bad.items())) or 'is_primary / certify not tested')
+    check_attributes(rep, prog, rid)
+
+
+def check_attributes(rep, prog, rid):
+    """check_attributes raises exactly when some declared (attribute, value) pair does not hold for the key."""
+    ka = prog.cls('pgpy.decorators', 'KeyAction')
     ca = ka.methods.get('check_attributes')
-    gg = CFG(ca.node)
-    loops = [n for n in gg.nodes if n.kind == 'loop']
-    tests = [n for n in gg.nodes if n.kind == 'test']
-    ok = len(loops) == 1 and ast.unparse(loops[0].ast.iter) == 'self.conditions.items()' and len(tests) == 1 and \
-        ast.unparse(tests[0].ast.test).replace(' ', '') == 'getattr(key,attr)!=expected'
+    if ca is None or len(ca.params) != 2:
+        raise AnalysisError('KeyAction.check_attributes vanished')
+    me, kp = ca.params
+    outs = Interp(prog, Scenario(inline=noinline)).run(ca)
+    raising = [s for s in outs if s.raised is not None]
+    quiet = [s for s in outs if s.raised is None]
+
+    def pair_relation(s):
+        """key of the relation `getattr(key, <name>) == <declared value>` with <name>/<value> ranging over self.conditions"""
+        conds = '%s.conditions' % me
+        for b, coll in s.bound.items():
+            if coll.replace(' ', '') in (conds + '.items()', 'list(%s.items())' % conds, 'iter(%s.items())' % conds):
+                return ('eq', frozenset(('getattr(%s, %s_0)' % (kp, b), '%s_1' % b)))
+            if coll.replace(' ', '') in (conds, conds + '.keys()', 'list(%s)' % conds, 'iter(%s)' % conds):
+                return ('eq', frozenset(('getattr(%s, %s)' % (kp, b), '%s[%s]' % (conds, b))))
+        return None
+    for s in raising:
+        # `for a, e in filter(<mismatch test>, conditions.items()): raise` - the fused filter is the decision taken
+        for b, f in getattr(s, 'filters', {}).items():
+            if b in s.bound and not any(t == f for t, v, sk in s.facts):
+                others = set(re.findall(r'\$\d+(?:\.\d+)?', f)) - {b}
+                f2 = f.replace(others.pop(), b) if len(others) == 1 else f          # the filter's own variable is the loop's element
+                f2 = f2.replace(b + '[0]', b + '_0').replace(b + '[1]', b + '_1')
+                s.facts.append((f, True, skel_from_text(f2)))
+    rel = None
+    for s in raising:
+        rel = rel or pair_relation(s)
+
+    def alias(k):
+        """`[.. for a, e in conditions.items() if getattr(key, a) != e]` non-empty / any(..) / not all(..): some pair differs"""
+        t = None
+        if k[0] == 'expr' and k[1].startswith('EACH('):
+            m = re.match(r'^EACH\(.+? in .+? if \((.+) != (.+?)\);', k[1])
+            t = (m.group(1), m.group(2), False) if m else None
+        elif k[0] == 'eq' and 'None' in k[1] and len(k[1]) == 2:
+            x = [y for y in k[1] if y != 'None'][0]          # next((pair for pair in .. if differs), None) is None: no pair differs
+            m = re.match(r'^next\(EACH\(.+? in .+? if \((.+) != (.+?)\);.*\), None\)$', x)
+            t = (m.group(1), m.group(2), True) if m else None
+        elif k[0] == 'call' and k[1] in ('operator.ne', 'operator.eq', 'ne', 'eq') and len(k[2]) == 2:
+            t = (k[2][0], k[2][1], k[1].endswith('eq'))
+        elif k[0] == 'call' and k[1] in ('any', 'all') and len(k[2]) == 1:
+            m = re.match(r'^EACH\(.+? in [^;]+;\((.+) (!=|==) (.+)\)\)$', k[2][0])
+            if m and (k[1], m.group(2)) in (('any', '!='), ('all', '==')):
+                t = (m.group(1), m.group(3), k[1] == 'all')
+        if t is not None and rel is not None and frozenset(t[:2]) == rel[1]:
+            return rel, t[2]
+        return None
+    ok = rel is not None and bool(quiet)
+    detail = 'no comparison of getattr(%s, <attr>) with the declared value found' % kp
+    if rel is not None and raising:
+        ks = [k for k in _fact_atoms_all(raising, alias)]
+        declared = [x for x in rel[1] if not x.startswith('getattr(')][0]
+        if rel not in ks and not any(declared in str(k) for k in ks):
+            # a raise exists but its condition does not compare the declared value in any form the rule reads
+            raise AnalysisError('KeyAction.check_attributes: mismatch test not understood: %s' % [f[0] for f in raising[0].facts][:3])
     if ok:
-        tb = [m for m, lab in gg.succ[tests[0].id] if lab == 'T']
-        ok = all(gg.exit.id not in gg.reachable(m, skip_nodes={loops[0].id}) and isinstance(gg.nodes[m].ast, ast.Raise) for m in tb)
+        n_mis = 0
+        for assign in assignments(raising, alias=alias):
+            if any(k[0] == 'opaque' and k[1].startswith('in loop over') and not v for k, v in assign.items()):
+                continue
+            hit = [s for s in raising if consistent(s, assign, alias)]
+            if assign.get(rel) is False:
+                n_mis += 1
+                if not hit:
+                    ok, detail = False, 'a mismatch does not raise under [%s]' % _show(assign)
+            elif assign.get(rel) is True and hit:
+                ok, detail = False, 'raises although the condition holds under [%s]' % _show(assign)
+        ok = ok and n_mis > 0
+    # the scan of the conditions only ends early by raising (the interpreter summarises the loop, so look at its exits)
+    for loop in [n for n in ast.walk(ca.node) if isinstance(n, (ast.For, ast.While))]:
+        early = [n for b in loop.body for n in ast.walk(b) if isinstance(n, (ast.Break, ast.Return))]
+        if ok and early:
+            ok, detail = False, 'the loop over the conditions is left at line %d before every condition was compared' % early[0].lineno
     rep.check(ok, rid, 'KeyAction.check_attributes', 'for attr, expected in conditions: if getattr(key, attr) != expected: raise',
-              'every declared condition must be compared and any mismatch must raise', where=ca.where)
+              'every declared condition must be compared and any mismatch must raise', where=ca.where,
+              expected='raise iff getattr(%s, attr) != expected for some (attr, expected) in %s.conditions' % (kp, me), found=None if ok else detail)
+
+
+# ------------------------------------------------------------------------------------------------ usage scan
+COMPONENTS = ('SK1', 'SK2')
+
+
+def _unwrap_truth(t):
+    """(inner text, polarity) for the usual spellings of "this collection is non-empty"."""
+    t = t.strip()
+    while t.startswith('(') and t.endswith(')') and _balanced(t[1:-1]):
+        t = t[1:-1].strip()
+    m = re.match(r'^(?:len|bool)\((.+)\)$', t)
+    if m and _balanced(m.group(1)):
+        return _unwrap_truth(m.group(1))
+    m = re.match(r'^len\((.+)\) (==|!=|>|>=|<|<=) (\d+)$', t)
+    if m and _balanced(m.group(1)):
+        op, nv = m.group(2), int(m.group(3))
+        pol = {('!=', 0): True, ('>', 0): True, ('>=', 1): True, ('==', 0): False, ('<', 1): False, ('<=', 0): False}.get((op, nv))
+        if pol is not None:
+            inner, p2 = _unwrap_truth(m.group(1))
+            return inner, (pol if p2 else not pol)
+    return t, True
+
+
+def _top_args(t):
+    out, depth, cur = [], 0, ''
+    for ch in t:
+        if ch in '([{':
+            depth += 1
+        elif ch in ')]}':
+            depth -= 1
+        if ch == ',' and depth == 0:
+            out.append(cur.strip())
+            cur = ''
+        else:
+            cur += ch
+    if cur.strip():
+        out.append(cur.strip())
+    return out
+
+
+def _balanced(s):
+    d = 0
+    for ch in s:
+        if ch == '(':
+            d += 1
+        elif ch == ')':
+            d -= 1
+            if d < 0:
+                return False
+    return d == 0
+
+
+class UsageOracle(object):
+    """Answers the decisions of KeyAction.usage under one scenario and records what it was asked."""
+    def __init__(self, me, kp, up, flags, require, caps):
+        self.me, self.kp, self.up = me, kp, up
+        self.flags, self.require, self.caps = flags, require, caps
+        self.asked = []          # components whose capability was asked, in order
+        self.wrong = []          # capability tests that are a different relation than "the sets intersect"
+        self.unknown = []        # tests of a component's effective flags that are not understood
+        self.unknown_flags = []  # other tests of the required flags that are not understood
+        self.wrong_user = []
+
+    def _effective(self, t):
+        """component and identity argument if t is `set(C._get_key_flags(U))` / `C._get_key_flags(U)`"""
+        m = re.match(r'^(?:(?:set|frozenset)\()?([\w$.]+)\._get_key_flags\((.*?)\)\)?$', t)
+        if not m:
+            return None
+        return m.group(1), m.group(2)
+
+    def _capability(self, t):
+        F = '%s.flags' % self.me
+        pats = (r'^(?P<a>.+?) & (?P<b>.+)$', r'^(?P<a>.+)\.intersection\((?P<b>.+)\)$')
+        for p in pats:
+            m = re.match(p, t)
+            if m:
+                a, b = m.group('a').strip(), m.group('b').strip()
+                for x, y in ((a, b), (b, a)):
+                    if x in (F, 'set(%s)' % F, 'frozenset(%s)' % F) and self._effective(y):
+                        return self._effective(y) + (True,)
+        m = re.match(r'^(?P<a>.+)\.isdisjoint\((?P<b>.+)\)$', t)
+        if m:
+            a, b = m.group('a').strip(), m.group('b').strip()
+            for x, y in ((a, b), (b, a)):
+                if x in (F, 'set(%s)' % F, 'frozenset(%s)' % F) and self._effective(y):
+                    return self._effective(y) + (False,)
+        return None
+
+    def __call__(self, text):
+        t, pol = _unwrap_truth(text)
+        F = '%s.flags' % self.me
+        if t == F:
+            return self.flags if pol else not self.flags
+        if t.replace(' ', '') in ('%s==set()' % F, 'set()==%s' % F):
+            return (not self.flags) if pol else self.flags
+        if t.replace(' ', '') in ('%s!=set()' % F, 'set()!=%s' % F):
+            return self.flags if pol else not self.flags
+        if t == '%s._require_usage_flags' % self.kp:
+            return self.require if pol else not self.require
+        m = re.match(r'^%s\._require_usage_flags (is|is not|==|!=) (True|False)$' % re.escape(self.kp), t)
+        if m:
+            v = self.require == (m.group(2) == 'True')
+            v = v if m.group(1) in ('is', '==') else not v
+            return v if pol else not v
+        m = re.match(r'^([\w$.]+) (is|is not|==|!=) ([\w$.]+)$', t)
+        comps = (self.kp,) + COMPONENTS
+        if m and m.group(1) in comps and m.group(3) in comps:
+            v = (m.group(1) == m.group(3)) == (m.group(2) in ('is', '=='))
+            return v if pol else not v
+        cap = self._capability(t)
+        if cap is not None:
+            comp, user, positive = cap
+            if comp not in comps:
+                raise AnalysisError('KeyAction.usage: the candidates of the scan cannot be enumerated (capability asked of %s)' % comp)
+            if user != self.up:
+                self.wrong_user.append(text)
+            self.asked.append(comp)
+            v = self.caps[comp] if positive else not self.caps[comp]
+            return v if pol else not v
+        if '_get_key_flags' in t:
+            if F in t:
+                self.wrong.append(text)
+            else:
+                self.unknown.append(text)
+        elif F in t:
+            self.unknown_flags.append(text)
+        return None
 
 
 def check_usage_scan(rep, prog, rid):
     ka = prog.cls('pgpy.decorators', 'KeyAction')
     u = ka.methods.get('usage')
-    if u is None:
+    if u is None or len(u.params) < 3 or len(u.node.args.defaults) < len(u.params) - 3:
         raise AnalysisError('KeyAction.usage vanished')
-    g = CFG(u.node)
-    loops = [n for n in g.nodes if n.kind == 'loop' and isinstance(n.ast, ast.For)]
-    main = [l for l in loops if '_get_key_flags' in ast.unparse(l.ast)]
-    if len(main) != 1:
-        raise AnalysisError('KeyAction.usage: scan loop not found')
-    L = main[0]
-    it = ast.unparse(L.ast.iter).replace(' ', '')
-    rep.check(it == '_preiter(key,key.subkeys.values())' and ast.unparse(L.ast.target) == '_key', rid, 'KeyAction.usage', 'scan order %s' % it,
-              'the scan must try the addressed key first and then each of its subkeys', where=u.where)
-    # selection = intersection of required flags with the component's effective flags; break only on its true edge
-    tests = [n for n in g.nodes if n.kind == 'test' and '_get_key_flags' in ast.unparse(n.ast.test)]
-    ok = len(tests) == 1 and ast.unparse(tests[0].ast.test).replace(' ', '') == 'self.flags&set(_key._get_key_flags(user))'
-    rep.check(ok, rid, 'KeyAction.usage', 'selection test %s' % [ast.unparse(t.ast.test) for t in tests],
+    me, kp, up = u.params[:3]
+    extra = {}                        # further parameters take their declared defaults (the wrapper's call is checked by C16.2)
+    for name, d in zip(u.params[len(u.params) - len(u.node.args.defaults):], u.node.args.defaults):
+        if name in u.params[3:]:
+            try:
+                extra[name] = Const(ast.literal_eval(d))
+            except Exception:
+                raise AnalysisError('KeyAction.usage: default of %s is not a literal' % name)
+    comps = (kp,) + COMPONENTS
+    subs = [Sym(c, nonnull=True) for c in COMPONENTS]
+    unroll = {'%s.subkeys.values()' % kp: subs, '%s._children.values()' % kp: subs}
+    verdicts = {'order': [], 'select': [], 'refuse': [], 'noflags': [], 'yield': []}
+    wrong, unknown, unknown_flags, wrong_user = [], [], [], []
+    n = 0
+    for flags in (True, False):
+        for require in (True, False):
+            for capv in itertools.product((False, True), repeat=3) if flags else ((False, False, False),):
+                caps = dict(zip(comps, capv))
+                orc = UsageOracle(me, kp, up, flags, require, caps)
+                sc = Scenario(args=dict(extra, **{kp: Sym(kp, nonnull=True)}), unroll=unroll, oracle=orc, inline=lambda f: f.cls is ka and f is not u)
+                outs = Interp(prog, sc).run(u)
+                wrong += [t for t in orc.wrong if t not in wrong]
+                unknown += [t for t in orc.unknown if t not in unknown]
+                unknown_flags += [t for t in orc.unknown_flags if t not in unknown_flags]
+                wrong_user += [t for t in orc.wrong_user if t not in wrong_user]
+                n += 1
+                label = 'flags required=%s, enforcement=%s, capable=%s' % (flags, require, [c for c in comps if caps[c]])
+                for s in outs:
+                    ys = [render(y) for y in s.yields]
+                    if any(y not in comps for y in ys):
+                        raise AnalysisError('KeyAction.usage yields %s under %s: not one of the scanned components' % (ys, label))
+                    und = [f[0] for f in s.facts]
+                    if not flags:
+                        if s.raised is not None or ys != [kp]:
+                            verdicts['noflags'].append((label, ys, s.raised, und))
+                        continue
+                    first = next((c for c in comps if caps[c]), None)
+                    if first is not None:
+                        if s.raised is not None or ys != [first]:
+                            kind = 'order' if (ys and ys[0] in comps and caps.get(ys[0])) else 'select'
+                            verdicts[kind].append((label, ys, s.raised, und))
+                    elif require:
+                        if s.raised is None or ys:
+                            verdicts['refuse' if not ys or not und else 'select'].append((label, ys, s.raised, und))
+                    else:
+                        if s.raised is not None:
+                            verdicts['refuse'].append((label, ys, s.raised, und))
+                        elif len(ys) != 1:
+                            verdicts['yield'].append((label, ys, s.raised, und))
+    if unknown and not wrong:
+        raise AnalysisError('KeyAction.usage: capability test not understood: %s' % unknown[:2])
+    if unknown_flags and verdicts['noflags'] and not any(v for k, v in verdicts.items() if k != 'noflags'):
+        raise AnalysisError('KeyAction.usage: test of the required flags not understood: %s' % unknown_flags[:2])
+
+    def first(kind):
+        v = verdicts[kind]
+        return None if not v else 'under [%s] the scan yields %s%s%s' % (v[0][0], v[0][1], ', raises' if v[0][2] else '',
+                                                                           (' (taking %s)' % v[0][3]) if v[0][3] else '')
+    rep.check(not verdicts['order'], rid, 'KeyAction.usage', 'scan order', 'the scan must try the addressed key first and then each of its subkeys',
+              where=u.where, expected='first capable component of [key, subkey 1, subkey 2, ...]', found=first('order'))
+    rep.check(not wrong, rid, 'KeyAction.usage', 'selection test %s' % (wrong[:1] or ''),
               'a component qualifies iff its effective flags intersect the required ones', where=u.where,
-              expected='self.flags & set(_key._get_key_flags(user))')
-    breaks = [n for n in g.nodes if n.kind == 'stmt' and isinstance(n.ast, ast.Break)]
-    if tests:
-        tedge = [(tests[0].id, m, 'T') for m, lab in g.succ[tests[0].id] if lab == 'T']
-        for b in breaks:
-            r = g.reachable(L.id, skip_edges=tedge)
-            rep.check(b.id not in r, rid, 'KeyAction.usage', 'break at line %d' % b.lineno,
-                      'a component may only be selected through the capability test (no other way to leave the scan with a component)',
-                      where='%s:%d' % (u.module.relpath, b.lineno))
-        # an exception raised while asking a component for its flags must not select it
-        for h in [n for n in g.nodes if n.kind == 'handler']:
-            rep.violation(rid, 'KeyAction.usage', 'except %s in the scan' % ast.unparse(h.ast.type) if h.ast.type is not None else 'bare except',
-                          'errors while determining a component\'s capability are swallowed inside the usage scan', where='%s:%d' % (u.module.relpath, h.lineno))
-    # for-else: raise unless enforcement is disabled
-    else_start = [m for m, lab in g.succ[L.id] if lab == 'F']
-    et = [n for n in g.nodes if n.kind == 'test' and '_require_usage_flags' in ast.unparse(n.ast.test)]
-    ok = len(et) == 1 and ast.unparse(et[0].ast.test).replace(' ', '') == 'key._require_usage_flags'
-    if ok:
-        tb = [m for m, lab in g.succ[et[0].id] if lab == 'T']
-        ok = all(isinstance(g.nodes[m].ast, ast.Raise) for m in tb) and bool(tb)
-        ok = ok and all(et[0].id in g.reachable(m) or m == et[0].id for m in else_start)
-    rep.check(ok, rid, 'KeyAction.usage', 'no component qualifies -> raise if key._require_usage_flags',
-              'when no component has the capability the operation must refuse unless the caller disabled enforcement', where=u.where)
-    # only scanned when flags are required; otherwise the addressed key itself
-    ft = [n for n in g.nodes if n.kind == 'test' and ast.unparse(n.ast.test).replace(' ', '') == 'len(self.flags)']
-    rep.check(len(ft) == 1, rid, 'KeyAction.usage', 'flag-less operations use the addressed key', 'operations without a capability requirement run on the addressed key',
-              where=u.where)
-    ys = [n for n in g.nodes if n.kind == 'stmt' and isinstance(n.ast, ast.Expr) and isinstance(n.ast.value, ast.Yield)]
-    rep.check(len(ys) == 1 and ast.unparse(ys[0].ast.value.value) == '_key', rid, 'KeyAction.usage', 'yields _key', 'the selected component is what the operation receives',
-              where=u.where)
+              expected='%s.flags & set(<component>._get_key_flags(%s))' % (me, up), found=wrong[:1])
+    rep.check(not wrong_user, rid, 'KeyAction.usage', 'flags of the chosen identity %s' % wrong_user[:1],
+              'the capability is the one granted through the identity the caller chose', where=u.where, expected='_get_key_flags(%s)' % up, found=wrong_user[:1])
+    rep.check(not verdicts['select'], rid, 'KeyAction.usage', 'selection only through the capability test',
+              'a component may only be selected through the capability test (no other way to leave the scan with a component)',
+              where=u.where, found=first('select'))
+    rep.check(not verdicts['refuse'], rid, 'KeyAction.usage', 'no component qualifies -> raise if key._require_usage_flags',
+              'when no component has the capability the operation must refuse unless the caller disabled enforcement', where=u.where,
+              found=first('refuse'))
+    rep.check(not verdicts['noflags'], rid, 'KeyAction.usage', 'flag-less operations use the addressed key',
+              'operations without a capability requirement run on the addressed key', where=u.where, found=first('noflags'))
+    rep.check(not verdicts['yield'], rid, 'KeyAction.usage', 'yields the selected component', 'the selected component is what the operation receives',
+              where=u.where, found=first('yield'))
